@@ -286,6 +286,13 @@ def check_mappings(ctx, rng, reqs, metas, n_cases):
                 st2, got2 = outcome(lambda: mk().slice(a, b).map(pos, assoc))
                 exp2 = compose(list(zip(maps, invs))[a:b], pos, assoc)
                 st3, got3 = outcome(lambda: mk().map_result(pos, assoc).pos)
+                # default arguments of slice, and a copy: slice() is everything, slice(a) runs to the end, copy() maps alike
+                st4, got4 = outcome(lambda: [mk().slice().map(pos, assoc), mk().slice(a).map(pos, assoc), mk().copy().map(pos, assoc)])
+                exp4 = [exp, compose(list(zip(maps, invs))[a:], pos, assoc), exp]
+                if (st4, got4) != ("ok", exp4):
+                    ctx.violation("mapping-composition", "Mapping.slice() / slice(from) / copy() do not map like the corresponding composition",
+                                  {"maps": maps, "inverted": invs, "pos": pos, "assoc": assoc, "slice": [a, None],
+                                   "got": got4, "expected": exp4})
                 if (st, got) != ("ok", exp) or (st2, got2) != ("ok", exp2) or (st3, got3) != ("ok", exp):
                     ctx.violation("mapping-composition", "Mapping.map is not the left-to-right composition",
                                   {"maps": maps, "inverted": invs, "pos": pos, "assoc": assoc, "slice": [a, b],
